@@ -211,6 +211,14 @@ def cases(rng, tier):
         c["devs2"] = c["devs1"] if c["w"] == "both" else None
         c.update(pairs=6, rand=True, base=rng.choice([["send", 1], ["send", 2], SEND0]))
         out.append(c)
+    # every other case with a read-kind motor uses HINTED read-kind motors (position = the hinted field of a reading whose
+    # first key is a decoy); the others have no hints (position = the first key)
+    j = 0
+    for c in out:
+        if 2 in c.get("kinds", []):
+            j += 1
+            if j % 2 == 0:
+                c["hinted"] = True
     return out
 
 
@@ -331,7 +339,7 @@ class Engine:
     def __init__(self, case):
         from harness.drivers import scan_fakes
         self.case = case
-        self.motors = [R.KINDS[k](i, R.num_py(case["init"][i])) for i, k in enumerate(case["kinds"])]
+        self.motors = [R.kinds_for(case)[k](i, R.num_py(case["init"][i])) for i, k in enumerate(case["kinds"])]
         R.add_holders(self.motors, case)        # stage.x-style axes: children of an ordinary parent device
         self.det = scan_fakes.make_det("det", True)
         self.pos = []            # positions reported so far (the case's answer table grows as the run goes)
@@ -375,7 +383,7 @@ class Engine:
             if p not in self.pos:
                 self.pos.append(p)
             k = self.pos.index(p)
-            return R.Answer(o._pos, k), ["send", k]
+            return R.Answer(o._pos, k, bool(self.case.get("hinted"))), ["send", k]
         if isinstance(o, R._Base) and m.command == "set":
             return o.set(m.args[0]), ["send", 50]
         return None, ["send", None]
